@@ -148,6 +148,7 @@ def alias_family(rng, n):
 
 def correspondence(ctx):
     basecorr.run(ctx)
+    __import__("pgenlib").validate(ctx)      # the functions of _parser.py re-translated from source (Generated/ParserOps.lean) vs the implementation
     # --- assumption audit over all code points
     bad = L.audit_unicode(ctx)
     for b in bad[:5]:
